@@ -577,6 +577,8 @@ def set_method(it, ref, h, name, args, kwargs):
     if name == "add":
         it.ctx.mutate()
         k = args[0]
+        if isinstance(k, VOpt):
+            k = it.unwrap(k, "set element") if isinstance(k.val, VRec) else k
         if isinstance(k, VRec):
             for k2 in list(h.items):
                 if it.decide(it.equal(k, k2), "set.add existing"):
@@ -588,6 +590,8 @@ def set_method(it, ref, h, name, args, kwargs):
     if name in ("remove", "discard"):
         it.ctx.mutate()
         k = args[0]
+        if isinstance(k, VOpt) and isinstance(k.val, VRec):
+            k = it.unwrap(k, "set element")
         if isinstance(k, VRec):
             for k2 in list(h.items):
                 if it.decide(it.equal(k, k2), "set.remove match"):
